@@ -27,7 +27,7 @@ from simkit.simpool import SimPool, SimDeadlock   # noqa: E402
 import random                                     # noqa: E402
 
 from insights.core import dr, plugins, spec_factory          # noqa: E402
-from insights.core.context import HostContext                # noqa: E402
+from insights.core.context import HostContext, SerializedArchiveContext   # noqa: E402
 from insights.core.exceptions import (SkipComponent, ContentException, CalledProcessError,   # noqa: E402
                                       TimeoutException, ValidationException)
 from insights import settings                                 # noqa: E402
@@ -378,8 +378,9 @@ def gen_program(st, flavour, tier):
             if not ds:
                 t = nd["type"] = "datasource"
             else:
-                nd["impls"] = rp_.sample(ds, rp_.randint(1, min(3, len(ds))))
-                nd["impls"].sort()
+                nd["impls"] = rp_.sample(ds, rp_.randint(1, min(3, len(ds))))       # registration order
+                # some implementations are registered late: after dependency graphs were already computed once
+                nd["late"] = rp_.randint(0, len(nd["impls"]) - 1) if rp_.random() < 0.35 else 0
         if t == "parser":
             cands = [j for j in prev if nodes[j]["type"] in ("datasource", "rp", "component")]
             if not cands:
@@ -432,11 +433,21 @@ def gen_program(st, flavour, tier):
             nd["enabled"] = False
         nodes.append(nd)
         cluster_of.append(cl)
-    case = {"w": "w1", "flavour": flavour, "nodes": nodes, "hostctx": hostctx,
+    sac = rk.random() < (0.12 if flavour in ("C01", "C02", "C04") else 0.05)
+    case = {"w": "w1", "flavour": flavour, "nodes": nodes, "hostctx": hostctx, "sac": sac,
             "seeded": sorted(i for i in range(n) if rk.random() < fl["seeded"]),
             "store_skips": rk.random() < 0.5,
             "debug_log": rk.random() < 0.2,
             "observers": [], "targets": None, "graph_drop": [], "enable_cfg": None}
+    if sac:
+        # the hydrated-archive path of dr.run(): the direct dependencies of pre-seeded components are dropped from the graph.
+        # More pre-seeded values make it bite; a pre-seeded component must not be a direct dependency of another one (dr.run
+        # would look up a key it has just dropped -- outside the listed properties)
+        seeded = set(case["seeded"]) | set(i for i in range(n) if rk.random() < 0.25)
+        for i in sorted(seeded):
+            if any(j in seeded for j in dep_set(nodes[i])):
+                seeded.discard(i)
+        case["seeded"] = sorted(seeded)
     if rk.random() < 0.3 and n > 1:
         case["targets"] = sorted(rp_.sample(range(n), rp_.randint(1, n)))
     if rk.random() < fl["graph_drop"] and n > 2:
@@ -461,7 +472,7 @@ def gen_program(st, flavour, tier):
 def fresh_brokers_ok(case):
     """Drivers that let the engine create one fresh broker per sub-graph cannot carry pre-seeded values,
     a HostContext, store_skips or broker-local observers."""
-    return not (case["seeded"] or case["store_skips"] or case["hostctx"] or
+    return not (case["seeded"] or case["store_skips"] or case["hostctx"] or case.get("sac") or
                 any(not o["glob"] for o in case["observers"]))
 
 
@@ -545,6 +556,13 @@ def graph_nodes(case):
     for i in case.get("graph_drop") or []:
         if len(g) > 1:
             g.discard(i)
+    if case.get("sac") and case.get("driver", {}).get("kind") != "order":
+        # dr.run() with a SerializedArchiveContext in the broker: what a pre-seeded component was built from is loaded,
+        # not collected again -- its direct dependencies leave the evaluation
+        for i in sorted(g):
+            if i in case["seeded"]:
+                for d in dep_set(case["nodes"][i]):
+                    g.discard(d)
     return g
 
 
@@ -830,6 +848,7 @@ class World(object):
         if case.get("max_detail_length"):
             settings.defaults["max_detail_length"] = case["max_detail_length"]
         objs = []
+        late = []
         for nd in nodes:
             if nd["type"] == "rp":
                 objs.append(None)
@@ -840,8 +859,12 @@ class World(object):
             if t == "rp":
                 rp = RegistryPoint(nd["name"], nd["h"])
                 objs[i] = rp
-                for j in nd["impls"]:
+                nlate = nd.get("late", 0)
+                early = nd["impls"][:len(nd["impls"]) - nlate]
+                for j in early:
                     dr.add_dependency(rp, objs[j])
+                if nlate:
+                    late.append((rp, [objs[j] for j in nd["impls"][len(early):]]))
                 continue
             g = objs[i]
             g._body = self.make_body(i, nd)
@@ -868,6 +891,14 @@ class World(object):
                 TYPES[t](*deps, **kw)(g)
         self.objs = objs
         self.idx = dict((o, i) for i, o in enumerate(objs))
+        if late:
+            # history: graphs are computed once (as a first evaluation or a tool would), THEN more implementations are
+            # plugged into their registry points (a spec-set sub-class defined later), then the real evaluation follows
+            for o in objs:
+                dr.get_dependency_graph(o)
+            for rp, more in late:
+                for im in more:
+                    dr.add_dependency(rp, im)
         # enable / disable
         for i, nd in enumerate(nodes):
             if not nd["enabled"]:
@@ -900,6 +931,8 @@ class World(object):
         b.store_skips = case["store_skips"]
         if case["hostctx"]:
             b[HostContext] = HostContext()
+        if case.get("sac"):
+            b[SerializedArchiveContext] = SerializedArchiveContext()
         for i in case["seeded"]:
             b[self.objs[i]] = ("seed", case["nodes"][i]["name"])
         if observers:
@@ -1001,6 +1034,16 @@ def run_driver(world, driver, graph):
             b = world.new_broker()
             dr.run(graph, b)
             return [b], None, None
+        if kind == "order" and driver.get("names"):
+            # an explicit order (pinned from an observed address-dependent run); unknown names are ignored, components
+            # of the graph that are not named follow in a seeded-hash independent order
+            b = world.new_broker()
+            byname = dict((cname(c), c) for c in set(graph) | set(d for v in graph.values() for d in v))
+            order = [byname[n] for n in driver["names"] if n in byname]
+            order += [byname[n] for n in sorted(byname) if byname[n] not in order]
+            world.forced_order = [cname(c) for c in order]
+            dr.run_components(order, graph, b)
+            return [b], None, None
         if kind == "order":
             b = world.new_broker()
             order = linear_extension(graph, random.Random(driver["order_seed"]))
@@ -1048,7 +1091,7 @@ def broker_signature(world, brokers):
     foreign = []
     for b in brokers:
         for k, v in b.instances.items():
-            if k is HostContext:
+            if k is HostContext or k is SerializedArchiveContext:
                 continue
             if k not in idx:
                 foreign.append(("value", repr(k)))
@@ -1179,6 +1222,7 @@ def oracle_c01(case, driver, r):
     ncalls = {}
     seen_args = {}
     graph_keys = set(r.graph_names)
+    participants = set(case["nodes"][i]["name"] for i in graph_nodes(dict(case, driver=driver)))
     for seq, e in enumerate(r.ev):
         if e[0] == "obs" and e[1] == "mon":
             first_obs.setdefault(e[2], seq)
@@ -1189,10 +1233,21 @@ def oracle_c01(case, driver, r):
             seen_args.setdefault(name, []).append(e[2])
             deps = [case["nodes"][j]["name"] for j in dep_set(nd)]
             for d in deps:
-                if d in graph_keys and d not in first_obs:
+                if d in graph_keys and d in participants and d not in first_obs:
                     out.append(V("C01.after-deps", "called-before-dependency-attempted:%s" % nd["type"],
                                  "%s was invoked at event %d before its dependency %s was attempted (driver %s)"
                                  % (name, seq, d, driver["kind"])))
+    ing_names = set(case["nodes"][i]["name"] for i in graph_nodes(dict(case, driver=driver)))
+    for name in sorted(ing_names):
+        nd = nb[name]
+        if name not in first_obs:
+            continue
+        for j in dep_set(nd):
+            d = case["nodes"][j]["name"]
+            if d in ing_names and d in first_obs and first_obs[d] > first_obs[name]:
+                out.append(V("C01.after-deps", "attempted-before-dependency:%s" % nd["type"],
+                             "%s was attempted (event %d) before its dependency %s (event %d), both take part (driver %s)"
+                             % (name, first_obs[name], d, first_obs[d], driver["kind"])))
     for name, n in ncalls.items():
         nd = nb[name]
         if nd["type"] == "parser":
@@ -1408,6 +1463,7 @@ def remove_node(case, k):
         nd["opt"] = remap(nd["opt"])
         if nd["type"] == "rp":
             nd["impls"] = remap(nd["impls"])
+            nd["late"] = min(nd.get("late", 0), max(0, len(nd["impls"]) - 1))
     nodes[:] = nodes
     # an rp without implementations cannot be declared; turn it into a datasource
     for nd in nodes:
@@ -1434,7 +1490,7 @@ def shrink_program(case):
             c["nodes"][k]["gpos"] = [len(nd["req"])] * len(nd["groups"])
             yield c
     for key, simple in (("observers", []), ("enable_cfg", None), ("graph_drop", []), ("targets", None),
-                        ("seeded", []), ("debug_log", False), ("store_skips", False), ("hostctx", False)):
+                        ("seeded", []), ("debug_log", False), ("store_skips", False), ("hostctx", False), ("sac", False)):
         if case.get(key) != simple:
             c = _copy(case)
             c[key] = simple
@@ -1487,10 +1543,15 @@ def shrink_program(case):
                     c = _copy(case)
                     del c["nodes"][k]["groups"][gi][x]
                     yield c
+        if nd["type"] == "rp" and nd.get("late"):
+            c = _copy(case)
+            c["nodes"][k]["late"] = 0
+            yield c
         if nd["type"] == "rp" and len(nd["impls"]) > 1:
             for x in range(len(nd["impls"])):
                 c = _copy(case)
                 del c["nodes"][k]["impls"][x]
+                c["nodes"][k]["late"] = min(c["nodes"][k].get("late", 0), len(c["nodes"][k]["impls"]) - 1)
                 yield c
         if nd.get("needs_host"):
             c = _copy(case)
@@ -1736,7 +1797,12 @@ class C04(EngineCheck):
                 nd["work"] = 1.0               # bodies are deterministic: no timer expiry in C04
             if nd["out"] in ("badstr", "unhash"):
                 nd["out"] = "boom"
-        case["driver"] = {"kind": "bundle", "bundle": gen_bundle(st, case)}
+        bundle = gen_bundle(st, case)
+        if case.get("sac"):
+            # run_components is the low-level entry that does not do the hydrated-archive pruning of dr.run(): under a
+            # SerializedArchiveContext it legitimately evaluates more, so it is not part of the comparison
+            bundle = [d for d in bundle if d["kind"] != "order"]
+        case["driver"] = {"kind": "bundle", "bundle": bundle}
         return case
 
     def execute(self, case):
@@ -1749,7 +1815,11 @@ class C04(EngineCheck):
         base_calls = None
         sigs = []
         natural = False
+        unrepro = []
+        pinned_case = None
         for d in bundle:
+            v_start = len(viols)
+            pinned_here = None
             if d.get("natural_hash"):
                 natural = True
                 G.__hash__ = object.__hash__
@@ -1761,36 +1831,59 @@ class C04(EngineCheck):
                     G.__hash__ = _seeded_hash
                     RegistryPoint.__hash__ = _seeded_hash
             if d.get("natural_hash"):
+                observed = [e[2] for e in r.ev if e[0] == "obs" and e[1] == "mon"]
                 r.ev = sorted(r.ev, key=repr)          # order is address dependent by design; keep the multiset
+                sg0 = _norm({"vals": r.sig["vals"], "excs": r.sig["excs"], "miss": r.sig["miss"]})
+                if r.escaped is not None or sg0 != ms:
+                    # not replayable as such: pin the order the engine happened to choose and force it under seeded hashes
+                    pinned = {"kind": "order", "names": observed}
+                    r2 = execute_once(case, pinned)
+                    sg2 = _norm({"vals": r2.sig["vals"], "excs": r2.sig["excs"], "miss": r2.sig["miss"]})
+                    if r2.escaped is not None or sg2 != ms:
+                        d = dict(pinned, kind_label="natural-order-pinned")
+                        r = r2
+                        pinned_here = _copy(case)
+                        pinned_here["driver"] = {"kind": "bundle", "bundle": [{"kind": "run"}, dict(pinned, kind_label="natural-order-pinned")]}
+                    else:
+                        unrepro.append(observed)
+                        continue
             runs.append(r)
-            label = d["kind"] + ("/natural" if d.get("natural_hash") else "")
+            klabel = d.get("kind_label", d["kind"])
+            label = klabel + ("/natural" if d.get("natural_hash") else "")
             if r.escaped is not None:
-                viols.append(V("C04.escape", "escape:%s:%s" % (d["kind"], type(r.escaped).__name__), "driver %s raised %r" % (label, r.escaped)))
+                viols.append(V("C04.escape", "escape:%s:%s" % (klabel, type(r.escaped).__name__), "driver %s raised %r" % (label, r.escaped)))
+                if pinned_here is not None:
+                    viols[-1]["replay_case"] = pinned_here
                 continue
             sg = _norm({"vals": r.sig["vals"], "excs": r.sig["excs"], "miss": r.sig["miss"]})
             sigs.append(sg)
             if r.sig["conflicts"]:
-                viols.append(V("C04.signature", "sub-graph-brokers-disagree:%s" % d["kind"], "%s" % (r.sig["conflicts"],)))
+                viols.append(V("C04.signature", "sub-graph-brokers-disagree:%s" % klabel, "%s" % (r.sig["conflicts"],)))
             if sg != ms:
                 diff = _sigdiff(sg, ms)
-                viols.append(V("C04.signature", "differs-from-model:%s" % d["kind"],
+                viols.append(V("C04.signature", "differs-from-model:%s" % klabel,
                                "driver %s: %s (forced order %s)" % (label, diff, r.forced_order)))
             if base is None:
                 base = sg
             elif sg != base:
-                viols.append(V("C04.signature", "differs-between-drivers:%s" % d["kind"],
+                viols.append(V("C04.signature", "differs-between-drivers:%s" % klabel,
                                "driver %s vs dr.run: %s" % (label, _sigdiff(sg, base))))
             calls = dict((k, len(v)) for k, v in calls_from_events(r.ev).items())
             nb = node_by_name(case)
             for k, n in calls.items():
                 if n > 1 and nb[k]["type"] != "parser":
-                    viols.append(V("C04.counts", "invoked-twice:%s" % d["kind"], "%s invoked %d times under %s" % (k, n, label)))
+                    viols.append(V("C04.counts", "invoked-twice:%s" % klabel, "%s invoked %d times under %s" % (k, n, label)))
             if base_calls is None:
                 base_calls = calls
             elif calls != base_calls:
-                viols.append(V("C04.counts", "invocation-counts-differ:%s" % d["kind"], "%s: %s vs dr.run %s" % (label, calls, base_calls)))
+                viols.append(V("C04.counts", "invocation-counts-differ:%s" % klabel, "%s: %s vs dr.run %s" % (label, calls, base_calls)))
+            if pinned_here is not None:
+                for v in viols[v_start:]:
+                    v["replay_case"] = pinned_here
         viols.extend(oracle_partition(case, runs[0]))
         res = self.result(case, runs, viols)
+        if unrepro:
+            res["stats"]["probes"]["address_order_mismatch_not_reproduced_by_pinned_order"] = len(unrepro)
         for d in bundle:
             k = d["kind"] + ("_natural" if d.get("natural_hash") else "")
             res["stats"]["drivers"][k] = res["stats"]["drivers"].get(k, 0) + 1
